@@ -303,6 +303,47 @@ def bulk_probe(sco, phi):
     return msgs
 
 
+def same_phase_bulk_probe(sco, phi):
+    """update_all over a list that holds SEVERAL minerals of the same phase (two olivine populations of different fabric and
+    texture + enstatite; identical twins): every mineral of the list must come out bit-identical to the same mineral updated alone
+    by update_orientations from the common starting F (minerals share no hidden state; the bulk update 'loops over minerals')."""
+    import pydrex
+    OL, EN = pydrex.MineralPhase.olivine, pydrex.MineralPhase.enstatite
+    msgs = []
+    ass, frs = (OL, EN), (phi, 1 - phi)
+    sc_b = dict(sco, pair=(0, (sco["pair"][1] + 1 + sco["seed"] % 4) % 5), seed=sco["seed"] + 29, flow_seed=sco["seed"] + 1)   # another olivine fabric / texture
+    sc_e = dict(sco, pair=(1, 5), seed=sco["seed"] + 17, flow_seed=sco["seed"] + 1)
+    sc_t = dict(sco, flow_seed=sco["seed"] + 1)                                                                                # the first one's twin
+    scs = [dict(sco, flow_seed=sco["seed"] + 1), sc_b, sc_e, sc_t]
+
+    def fresh():
+        built = [MT.build(x, ass, frs) for x in scs]
+        return [b[0] for b in built], built[0][1], built[0][2], built[0][3]
+
+    for order in ((0, 1, 2, 3), (2, 3, 1, 0)):
+        ms, params, get_L, get_x = fresh()
+        F0 = np.eye(3) + 0.1 * np.arange(9.0).reshape(3, 3) / 9
+        Fb = pydrex.update_all([ms[i] for i in order], params, F0.copy(), get_L, (0.0, 0.25, get_x))
+        Fb2 = pydrex.update_all([ms[i] for i in order], params, Fb, get_L, (0.25, 0.5, get_x))
+        ref, _, _, _ = fresh()
+        Flast = None
+        for i in order:
+            Fa = ref[i].update_orientations(params, F0.copy(), get_L, (0.0, 0.25, get_x))
+            Flast = ref[i].update_orientations(params, Fb, get_L, (0.25, 0.5, get_x))
+        names = ("olivine #1", "olivine #2 (other fabric)", "enstatite", "olivine #1's twin")
+        for i in order:
+            if len(ms[i].orientations) != 3:
+                msgs.append(f"update_all over {[names[j] for j in order]}: {names[i]} has {len(ms[i].orientations) - 1} new snapshots after two bulk updates, not 2")
+            elif not tex_identical(ms[i], ref[i]):
+                msgs.append(f"update_all over {[names[j] for j in order]}: {names[i]} differs from the same mineral updated alone from the common F "
+                            f"by {tex_diff(ms[i], ref[i]):.3e}")
+        if np.asarray(Fb2).tobytes() != np.asarray(Flast).tobytes():
+            msgs.append("update_all over several minerals of one phase did not return the deformation gradient of its last mineral")
+        if not tex_identical(ms[0], ms[3]):
+            msgs.append("identical twins handed to one update_all call came out different")
+    return msgs
+
+
 DEGENERATE = ("fractions-long", "duplicate-phase", "phase-missing", "fractions-short")
 
 
@@ -421,6 +462,7 @@ def run(chk):
                        "Boundary sweep: every accepted regime {4,6,0,7,1} x {olivine, enstatite} x phi exactly 0 and exactly 1 (+ a grid value), both list orders, "
                        "straining flows, incl. regimes supplied by a get_regime callable; near-boundary fractions (-0.0, subnormal, one ulp, 1 - ulp/2); "
                        "option values spelled as lists / ndarray / int ordinals / float32 / Python int (where exactly representable) must be bit-identical; "
+                       "update_all over several minerals of the SAME phase (two olivine populations + enstatite + a twin, two list orders: each bit-identical to the mineral updated alone); "
                        "aliasing stream (two minerals from the same initial arrays, shared params dict and starting F, returned F modified in place, decoy minerals "
                        "with other fractions interleaved); batch vs single calls of update_all; degenerate stream (surplus fractions, duplicated phase, own phase "
                        "missing, too few fractions: must raise without touching the history or poisoning later updates)")
@@ -501,6 +543,9 @@ def run(chk):
                               sample={"kind": "bulk/interleaving", "phi": phi, "olivine_fabric": sco["pair"][1]})
                 mon += [("bulk", sco, phi, m, {}) for m in bulk_probe(sco, phi)]
                 count(probes_h, "bulk")
+                if i % 2 == 0 or chk.tier != "quick":      # several minerals of the SAME phase in one update_all call
+                    mon += [("same_phase_bulk", sco, phi, m, {}) for m in same_phase_bulk_probe(sco, phi)]
+                    count(probes_h, "same_phase_bulk")
                 count(hist, "bulk:" + ("interior" if 0 < phi < 1 else f"boundary-{phi:g}"))
         chk.cov["max_multiphase_vs_single_difference"] = worst
         chk.cov["traces_validated_against_impl"] = chk.cov["evaluations"]
@@ -545,6 +590,8 @@ def replay(d):
             msgs = degenerate_probe(rec, sc, phi, d["degenerate_kind"])
         elif probe == "bulk":
             msgs = bulk_probe(sc, phi)
+        elif probe == "same_phase_bulk":
+            msgs = same_phase_bulk_probe(sc, phi)
         else:
             print("unknown probe", probe)
             return 1
